@@ -20,7 +20,7 @@ import (
 	"time"
 
 	"verif/core"
-	_ "verif/props"
+	"verif/props"
 )
 
 // kindTable lists per kind of case the CPU budget of the watchdog and the most
@@ -250,6 +250,9 @@ func runCase(p core.Property, c *core.Case, st *core.Stats) (vs []core.Violation
 			vs = append(vs, core.V(c, "harness-panic", "panic escaped the monitor: %v\n%s", r, buf))
 		}
 	}()
+	// the error value the fault plans of this case inject (a function of the
+	// case index, so that a replay uses the same value)
+	props.SetInjectedError(c.Idx)
 	return p.Run(c, st)
 }
 
